@@ -12,7 +12,9 @@ TSaw  == IsEvent("Saw") /\ Saw(Tr[l])
 TRet  == IsEvent("Ret") /\ Ret(Tr[l])
 \* server-side events of the same call that this spec does not constrain (SebufWire does)
 TSkip == (IsEvent("BodyRead") \/ IsEvent("Resp")) /\ UNCHANGED cvars
-TNext == TCall \/ TSent \/ TSaw \/ TRet \/ TSkip
+\* C08: the emitted TypeScript modules of the call's services load on the runtime
+TLoad == IsEvent("Load") /\ Tr[l].ok /\ UNCHANGED cvars
+TNext == TCall \/ TSent \/ TSaw \/ TRet \/ TSkip \/ TLoad
 TSpec == TInit /\ [][TNext]_tvars
 HighWater == TLCSet(1, IF l > TLCGet(1) THEN l ELSE TLCGet(1))
 Accepted == IF TLCGet(1) = Len(Tr) + 1 THEN TRUE ELSE PrintT(<<"TRACE_REJECTED_AT_LINE", TLCGet(1)>>) /\ FALSE
